@@ -61,6 +61,7 @@ func lmReplay(t *testing.T, prop string) {
 			m.judgeBalance(op.N, before, m.w.AddrOf(op), name, res.Balance, res.Err)
 		default:
 			res := m.w.Apply(op)
+			m.noteResult("C08", res, op.K)
 			if op.K == "propose" && res.Vertex != nil {
 				m.pendingCreated = append(m.pendingCreated, lmCreated{op.N, res.Vertex, m.snaps[op.N]})
 			}
